@@ -1434,10 +1434,13 @@ class TLSRecordLayer(object):
         self._defragmenter.clear_buffers()
         self.allegedSrpUsername = None
         self._refCount = 1
+        self._recordLayer.handshake_finished = False
 
     def _handshakeDone(self, resumed):
         self.resumed = resumed
         self.closed = False
+        # from now on unprotected alerts are no longer acceptable
+        self._recordLayer.handshake_finished = True
 
     def _calcPendingStates(self, cipherSuite, masterSecret,
                            clientRandom, serverRandom, implementations):
